@@ -502,7 +502,9 @@ func (p *Transformer) transformFuncBody(m llvm.Module, ctx llvm.Context, info *F
 				rv = b.CreateRetVoid()
 			case AttrWidthType:
 				if p.optimize {
-					if load := ret.IsALoadInst(); !load.IsNil() {
+					// Re-reading the load's source is only safe when nothing can
+					// write to it between the load and the return.
+					if load := ret.IsALoadInst(); !load.IsNil() && llvm.NextInstruction(load) == instr {
 						iptr := b.CreateBitCast(ret.Operand(0), llvm.PointerType(nft.ReturnType(), 0), "")
 						rv = b.CreateRet(b.CreateLoad(nft.ReturnType(), iptr, ""))
 						break
